@@ -10,7 +10,7 @@ from hypothesis import strategies as st
 
 from valjean.gavroche.stat_tests.student import TestStudent
 from vlib.core import Failure, Outcome, exc_failure, HarnessError
-from vlib import dist, statgen
+from vlib import dsutil, dist, statgen
 from vlib.statgen import close
 
 ID = 'C05'
@@ -123,7 +123,7 @@ def _case(draw):
             'factor': draw(st.floats(-3.0, 3.0).map(lambda x: 10.0 ** x))}
     return {'shape': shape, 'kinds': kinds, 'ref': {'v': refv, 'e': refe}, 'others': others,
             'alpha': alpha, 'ndf': ndf, 'k': draw(st.integers(-KMAX, KMAX)), 'mono': mono,
-            'layout': draw(st.sampled_from(['C', 'C', 'F'])) if len(shape) >= 2 else 'C'}
+            'layout': draw(st.sampled_from(dsutil.LAYOUTS))}
 
 
 def strategy(tier):
